@@ -41,7 +41,77 @@ func guarded(f func()) string {
 type sweepStats struct {
 	n, nok, ncalls, nargcalls, npartial int
 	partial                             bool
-	bad            []any
+	bad                                 []any
+	// accepted values of this sweep (fresh parses, distinct serialisations, a bounded number): arguments for each other's methods
+	pool      []reflect.Value
+	poolWhat  []string
+	poolSer   map[string]bool
+	poolShape map[string]int
+	ncross    int
+}
+
+const maxPool = 14
+
+// keep: a second, untouched parse of an accepted input joins the pool
+func (st *sweepStats) keep(rd Reader, in []byte, a Args, o ReadOut, what string) {
+	// one value per shape (length of serialisation and of the remainder) and content class, so that the pool is not filled by the
+	// first few single-byte variants of the same shape
+	key := fmt.Sprint(len(o.Ser), "|", len(o.Rem), "|", st.poolShape[fmt.Sprint(len(o.Ser), "|", len(o.Rem))])
+	if len(st.pool) >= maxPool || st.poolSer[string(o.Ser)] || st.poolShape[fmt.Sprint(len(o.Ser), "|", len(o.Rem))] >= 2 {
+		return
+	}
+	if st.poolShape == nil {
+		st.poolShape = map[string]int{}
+	}
+	st.poolShape[fmt.Sprint(len(o.Ser), "|", len(o.Rem))]++
+	key = string(o.Ser)
+	var o2 ReadOut
+	if msg := guarded(func() { o2 = rd(append([]byte{}, in...), a) }); msg != "" || !o2.OK || o2.Val == nil {
+		return
+	}
+	if st.poolSer == nil {
+		st.poolSer = map[string]bool{}
+	}
+	st.poolSer[key] = true
+	st.pool = append(st.pool, reflect.ValueOf(o2.Val))
+	st.poolWhat = append(st.poolWhat, what)
+}
+
+// cross: every method of an accepted value that takes one value of its own type (Equals and the like) is called with every OTHER
+// accepted value of the sweep as the argument ("every exported method then invoked on a value that was returned without error")
+func (st *sweepStats) cross() {
+	for i, v := range st.pool {
+		t := v.Type()
+		for mi := 0; mi < t.NumMethod(); mi++ {
+			m := t.Method(mi)
+			if m.Type.NumIn() != 2 || m.Type.IsVariadic() {
+				continue
+			}
+			pt := m.Type.In(1)
+			for j, w := range st.pool {
+				if i == j {
+					continue
+				}
+				var arg reflect.Value
+				switch {
+				case w.Type() == pt:
+					arg = w
+				case w.Kind() == reflect.Pointer && !w.IsNil() && w.Type().Elem() == pt:
+					arg = w.Elem()
+				case pt.Kind() == reflect.Interface && w.Type().Implements(pt):
+					arg = w
+				default:
+					continue
+				}
+				st.ncalls++
+				st.ncross++
+				if msg := guarded(func() { v.Method(mi).Call([]reflect.Value{arg}) }); msg != "" {
+					st.add(st.poolWhat[i]+" with "+st.poolWhat[j], "method "+m.Name+"(other accepted value)", msg)
+				}
+			}
+		}
+	}
+	st.pool = nil
 }
 
 func (st *sweepStats) add(what, site, msg string) {
@@ -86,6 +156,7 @@ func parseAndTouch(st *sweepStats, rd Reader, in []byte, a Args, what string) {
 		return
 	}
 	st.nok++
+	st.keep(rd, in, a, o, what)
 	for _, mo := range callAllMethods(v) {
 		st.ncalls++
 		if mo.Panicked {
@@ -108,10 +179,11 @@ func parseAndTouch(st *sweepStats, rd Reader, in []byte, a Args, what string) {
 }
 
 func (st *sweepStats) res() Res {
+	st.cross()
 	if st.bad == nil {
 		st.bad = []any{}
 	}
-	return Res{"n": st.n, "nok": st.nok, "ncalls": st.ncalls, "nargcalls": st.nargcalls, "npartial": st.npartial, "bad": st.bad}
+	return Res{"n": st.n, "nok": st.nok, "ncalls": st.ncalls, "nargcalls": st.nargcalls, "npartial": st.npartial, "ncross": st.ncross, "bad": st.bad}
 }
 
 type codeFunc func(code int, in []byte)
